@@ -227,6 +227,10 @@ Fixpoint state_after (s : sig) (evs : list event) : sig :=
 Definition wm_has (m : wmap) (id : N) : bool :=
   match wm_get m id with Some _ => true | None => false end.
 
+(* a caller is blocked waiting for exactly this acknowledgement *)
+Definition awaited (s : sig) (k : akind) (id : N) : bool :=
+  match wm_get (smap s k) id with Some w => mem_nat (w_h w) (live s) | None => false end.
+
 Definition rs_has_id (r : list (nat * N)) (id : N) : bool := existsb (fun p => snd p =? id) r.
 
 (* the identifier is not a key of any waiter map this request is going to use — stale entries
